@@ -33,7 +33,7 @@ VARIANTS = {
     "idxsafe": dict(profile="dbg", features=BASE_FEATURES + ",idx,safe"),
     "utf16": dict(profile="dbg", features=BASE_FEATURES + ",utf16"),
     "nostd": dict(profile="dbg", features="nostd,re-pikevm,uni"),
-    "pattern": dict(toolchain="nightly", profile="dbg", features=BASE_FEATURES + ",pattern"),
+    "pattern": dict(toolchain="nightly", profile="dbg", features=BASE_FEATURES + ",pattern", target_dir="target-nightly"),
     "asan": dict(
         toolchain="nightly",
         profile="rel",
@@ -713,6 +713,16 @@ CHECKS = {
         variant="utf16",
         required=["pairs.utf16", "pairs.ucs2", "pairs_with_supplementary_text", "arbitrary_u16_cases_with_lone_surrogate"],
         extra=lambda m: dict(pairs=group_counters(m.counters, "pairs"), arbitrary_u16_cases_with_lone_surrogate=m.c("arbitrary_u16_cases_with_lone_surrogate")),
+    ),
+    "C20": simple_check(
+        "C20",
+        "c20",
+        "30 regexes (empty matches, adjacent matches, matches at both ends, multi-byte, anchors, lookbehind, no match) x every haystack up to length 4 (quick) / 6 (thorough) over {a, 1, e-acute} plus 8 longer ones: the full step stream of <&Regex as Pattern>::into_searcher driven by next() to Done (+3 extra calls), by next_back() to Done, and by 3 seeded interleavings of both; and a battery of str methods (find, contains, matches, match_indices, split, splitn, split_terminator, replace, strip_prefix, trim_start_matches, rfind, rmatches, rmatch_indices, rsplit)."
+        " Forward: steps adjacent, non-overlapping, covering [0,len], on char boundaries, no empty Reject, Match steps == find_iter, Done absorbing. Backward: the mirror tiling from len to 0, every Match step a real match of the regex. Interleaved: the forward steps tile a prefix, the backward steps a suffix. str methods: equal to a model computed from find_iter (forward) / internally consistent and panic-free (reverse). non-trivial iff the regex matches in the haystack.",
+        ["nightly toolchain, regress feature 'pattern'", "the type is not a DoubleEndedSearcher, so nothing is required about the two cursors meeting"],
+        variant="pattern",
+        required=["forward_streams", "backward_streams", "interleavings", "str_method_batteries", "streams_with_empty_matches", "streams_over_multibyte_text"],
+        extra=lambda m: dict(forward_streams=m.c("forward_streams"), backward_streams=m.c("backward_streams"), interleavings=m.c("interleavings"), str_method_batteries=m.c("str_method_batteries"), streams_with_empty_matches=m.c("streams_with_empty_matches"), streams_over_multibyte_text=m.c("streams_over_multibyte_text")),
     ),
     "C16": simple_check(
         "C16",
